@@ -1364,6 +1364,10 @@ class SessionTransaction(_StateChange, TransactionalContext):
         assert stx is not None
         if stx is not self:
             for subtransaction in stx._iterate_self_and_parents(upto=self):
+                if subtransaction.nested:
+                    # hand the bookkeeping of a still-open SAVEPOINT to its
+                    # parent so that the snapshot restored below covers it
+                    subtransaction._remove_snapshot()
                 subtransaction.close()
 
         boundary = self
